@@ -548,8 +548,10 @@ def _(eng, m, g, a):
     return B(p in s)
 @model(r"^core::str::<impl str>::starts_with$")
 def _(eng, m, g, a):
-    s = deref(a[0]).concrete(); p = deref(a[1]).concrete()
-    return B(s.startswith(p))
+    s = deref(a[0]).concrete(); p = deref(a[1])
+    if isinstance(p, Sc): return B(s.startswith(chr(p.v)))
+    if isinstance(p, (Agg, FnPtr)): return B(bool(s) and eng.branch(eng.call_value(a[1], [Sc("char", ord(s[0]))])))
+    return B(s.startswith(p.concrete()))
 @model(r"^Rc::new$")
 def _(eng, m, g, a): return RcV(a[0])
 
